@@ -55,7 +55,7 @@ class HandlerHooks(Hooks):
         n = fn.name
         if n == "ExecutionState.get_checkpoint_result":
             rec = st.ghost["rec"]
-            st.emit("read", id=args[0] if args else kwargs.get("checkpoint_id"), rec=rec)
+            st.emit("read", id=bind_real(eng, "state.ExecutionState.get_checkpoint_result", args, kwargs)["checkpoint_id"], rec=rec)
             cr = eng.program.cls("state.CheckpointedResult")
             out = []
             for absent, s in eng.branch(st, is_none(rec)):
@@ -65,8 +65,8 @@ class HandlerHooks(Hooks):
                     out.extend(eng.call_func(cr.find_method("create_from_operation"), [ClassRef(cr), strip_opt(rec)], {}, s))
             return out
         if n == "ExecutionState.create_checkpoint":
-            upd = kwargs.get("operation_update", args[0] if args else None)
-            sync = kwargs.get("is_sync", args[1] if len(args) > 1 else True)
+            b_ = bind_real(eng, "state.ExecutionState.create_checkpoint", args, kwargs)
+            upd, sync = b_["operation_update"], b_["is_sync"]
             out = []
             outs = list(self.cp_outcomes)
             for i, oc in enumerate(outs):
@@ -152,6 +152,26 @@ def upd_is_own(st, upd):
         return F
     own = st.ghost.get("own_id")
     return ops.values_equal(st, st.get(upd)["operation_id"], own)
+
+
+def bind_real(eng, qualname, args, kwargs):
+    """bind the arguments of a call that is replaced by its contract, using the parameter names and DEFAULT values of the real signature"""
+    import ast as _ast
+    fi = eng.program.func(qualname)
+    params = fi.params[1:]  # without self
+    out = {}
+    for p, a in zip(params, args):
+        out[p] = a
+    for k, v in kwargs.items():
+        if k not in params:
+            raise Unsupported(f"{qualname} has no parameter {k}")
+        out[k] = v
+    for p in params:
+        if p not in out:
+            if p not in fi.defaults:
+                raise Unsupported(f"{qualname}: missing argument {p}")
+            out[p] = _ast.literal_eval(fi.defaults[p])
+    return out
 
 
 def make_engine(kind, **kw):
